@@ -18,7 +18,8 @@ pub fn answer(req: &str) -> String {
     let first = answer_once(req);
     for _ in 1..n {
         let again = answer_once(req);
-        if again != first {
+        // a run cut off by the watchdog stops at an arbitrary point: not comparable
+        if again != first && !first.starts_with("exit=timeout") && !again.starts_with("exit=timeout") {
             return format!("NONDET first={} || again={}", first, again);
         }
     }
